@@ -10,7 +10,7 @@ func checkC18(c *Ctx) {
 	c.Clauses = append(c.Clauses,
 		"C18.finalize: Finalize (blind and partially blind) returns a signature only for a blind signature of exactly the modulus length that passes VerifyBlindSignature, which accepts only on equality",
 		"C18.signer: BlindSign refuses a wrong length and an input above the modulus and returns only what DecryptAndCheck re-verified",
-		"C18.pss: every rejecting test of EMSA-PSS verification (length relations, 0xBC trailer, zero top bits, zero padding string, 0x01 separator, hash comparison) stands before acceptance; signature length is exact",
+		"C18.pss: every rejecting test of EMSA-PSS verification (length relations, 0xBC trailer, zero top bits, zero padding string, 0x01 separator, hash comparison) stands before acceptance; signature length is exact and the signature representative is below the modulus",
 		"C18.meta: the partially blind derived public exponent and private key depend on the metadata and the key")
 	c.NotDec = append(c.NotDec, "agreement with crypto/rsa.VerifyPSS on all keys (value-level)", "emBits boundary arithmetic", "independence of the signature from the blinding factor")
 	c.Trusted = append(c.Trusted, "math/big, crypto/rsa, x/crypto/hkdf")
@@ -59,6 +59,10 @@ func checkC18(c *Ctx) {
 	c.guard(p, "C18.pss", "rejects unless H' == H", pv, GuardSpec{Assumes: []Assume{calleeAssume(latFalse, -1, "bytes.Equal")}})
 	vp := p.Func(cm, "", "verifyPSS")
 	c.lenReject(p, "C18.pss", vp, "sig", false)
+	// crypto/rsa refuses a signature representative that is not below the modulus (s and s+N would
+	// otherwise both verify)
+	c.guard(p, "C18.pss", "signature representative not below the modulus refused", vp, GuardSpec{Assumes: []Assume{calleeAssume(latInt(1), -1, "(*math/big.Int).Cmp")}})
+	c.guard(p, "C18.pss", "signature representative equal to the modulus refused", vp, GuardSpec{Assumes: []Assume{calleeAssume(latInt(0), -1, "(*math/big.Int).Cmp")}})
 	c.guard(p, "C18.pss", "verifyPSS accepts only through EMSA-PSS verification", vp, GuardSpec{Assumes: []Assume{calleeAssume(latNonNil, -1, cm+".emsaPSSVerify")}})
 	c.guard(p, "C18.pss", "VerifyMessageSignature accepts only through verifyPSS", p.Func(cm, "", "VerifyMessageSignature"), GuardSpec{Assumes: []Assume{calleeAssume(latNonNil, -1, cm+".verifyPSS")}})
 	c.guard(p, "C18.pss", "public Verify delegates", p.Func(br, "Verifier", "Verify"), GuardSpec{Assumes: []Assume{calleeAssume(latNonNil, -1, cm+".VerifyMessageSignature")}})
